@@ -3086,6 +3086,29 @@ class StateEngine(object):
             ):
                 return
 
+            def abandon_batches():
+                """
+                A Map state re-entered for its next MaxConcurrency batch has
+                its own {"ID", "Range"} entry on top of the "Branch" list. If
+                that batch cannot be launched (its ItemSelector fails, say) the
+                Map state fails as a whole: drop that entry, so that Retry,
+                Catch and failure see the Map state as it was entered, and mark
+                the rest of its results as terminated so that the events held
+                for the batches that completed get acknowledged.
+                """
+                stack = context["State"].get("Branch")
+                if stack and "Index" not in stack[-1]:
+                    own = stack.pop()
+                    if len(stack) == 0:
+                        del context["State"]["Branch"]
+                    metadata = self.branch_metadata.get(context["Execution"]["Id"])
+                    results = metadata.results.get(own.get("ID")) if metadata else None
+                    if results:
+                        start = int(own.get("Range", "0:0").split(":")[0])
+                        for i in range(start, len(results["results"])):
+                            results["results"][i] = TERMINATED
+                        results["terminated"] = own.get("Range")
+
             try:
                 input = apply_path(data, context, state.get("InputPath", "$"))
 
@@ -3362,12 +3385,15 @@ class StateEngine(object):
 
                         self.event_dispatcher.acknowledge(id)
             except IntrinsicFailure as e:
+                abandon_batches()
                 handle_error(state, "States.IntrinsicFailure", str(e))
                 self.event_dispatcher.acknowledge(id)
             except ResultPathMatchFailure as e:
+                abandon_batches()
                 handle_error(state, "States.ResultPathMatchFailure", str(e))
                 self.event_dispatcher.acknowledge(id)
             except (PathMatchFailure, Exception) as e:
+                abandon_batches()
                 handle_error(state, "States.Runtime", str(e))
                 self.event_dispatcher.acknowledge(id)
 
